@@ -303,6 +303,26 @@ fn hostile_for_subject(ctx: &mut Ctx, acc: &mut Acc, id: &str, plan: &Plan, c05:
         }
     }
 
+    // (b2') wall-clock times next to daylight-saving transitions, as a foreign writer in another zone would send them:
+    // under a process zone with daylight saving (lanes with TZ set) some of them do not exist locally and some exist twice
+    if ty.any(&mut |t| matches!(t, Ty::DateTimeLocal), &mut Vec::new()) && std::env::var("TZ").map(|z| z != "UTC").unwrap_or(false) {
+        let edges = refmodel::GenCtx { dst_edges: true, allow_large: false, tz_names: ctx.gen.tz_names.clone(), ..refmodel::GenCtx::default() };
+        for wi in 0..plan.tamper_values * 8 {
+            let mut rng = ctx.rng_for(tag ^ 0xD5, id, wi);
+            let v = refmodel::gen_raw(&ty, &mut rng, &edges);
+            if let Ok(bytes) = refmodel::ref_encode(&ty, &v) {
+                if bytes.len() <= 64 * 1024 {
+                    let before = acc.counter("error:DeserializationFailure");
+                    visit(&mut ctx.crumb, acc, "local_time_next_to_a_transition", &bytes, true);
+                    acc.count("tampered:local_time_next_to_a_transition");
+                    if acc.counter("error:DeserializationFailure") > before {
+                        acc.count("local_times_the_zone_cannot_place_rejected");
+                    }
+                }
+            }
+        }
+    }
+
     // (b3) tuples and version-0 records dressed up as version-1 data whose header names one of the reader's own fields
     // as removed (no writer of this library produces that for a tuple; a foreign or hostile one can)
     let fields: Option<Vec<(String, Ty, bool)>> = match ty.resolved() {
@@ -551,9 +571,17 @@ fn pinned_cases(ctx: &mut Ctx, acc: &mut Acc, c05: bool, c06: bool) {
 }
 
 pub fn c05(ctx: &mut Ctx, acc: &mut Acc) -> i32 {
-    pinned_cases(ctx, acc, true, false);
-    let mut ids: Vec<String> = ctx.my_subjects(|_| true).iter().map(|s| s.id().to_string()).collect();
-    if ctx.shard == 0 && !ctx.only_fresh() {
+    // the local-time lane (TZ set to a zone with daylight saving by the driver): only types containing DateTime<Local>
+    let local_lane = ctx.extra.get("only").map(|v| v == "local").unwrap_or(false);
+    if !local_lane {
+        pinned_cases(ctx, acc, true, false);
+    }
+    let mut ids: Vec<String> = ctx
+        .my_subjects(|s| !local_lane || s.ty().any(&mut |t| matches!(t, Ty::DateTimeLocal), &mut Vec::new()))
+        .iter()
+        .map(|s| s.id().to_string())
+        .collect();
+    if ctx.shard == 0 && !ctx.only_fresh() && !local_lane {
         ids.extend(ctx.reg.hostile_only.iter().map(|s| s.id().to_string()));
     }
     let core_only = ctx.extra.get("exhaustive3").map(|v| v == "1").unwrap_or(false);
@@ -576,7 +604,7 @@ pub fn c05(ctx: &mut Ctx, acc: &mut Acc) -> i32 {
         hostile_for_subject(ctx, acc, &id, &plan, true, false);
         acc.count("types");
     }
-    if !core_only {
+    if !core_only && !local_lane {
         crate::inputs::hostile_ops(ctx, acc, "C05");
         tolerant_workload(ctx, acc, true, false);
     }
